@@ -157,6 +157,73 @@ def run_histories(exe, hists, tag):
     return rows
 
 
+# ---- several documents open at once: URIs that differ in scheme, query, fragment, case or one path segment only ----
+URI_POOL = ["file:///w/a.spl", "git:/w/a.spl?%7B%22ref%22%3A%22HEAD%22%7D", "untitled:/w/a.spl", "file:///w/a.spl#L1", "file:///w/A.spl",
+            "file:///w/b.spl", "file:///v/a.spl", "file://host/w/a.spl", "file:///w/a.spl?x=1", "vscode-vfs://github/w/a.spl"]
+
+
+def gen_sessions(ctx, n):
+    """[[op]]: op = (kind, uri, payload, expected client texts of all open documents after the op)"""
+    out = []
+    for _ in range(n):
+        uris = ctx.rng.sample(URI_POOL, ctx.rng.randint(2, 4))
+        texts, ops = {}, []
+        for _ in range(ctx.rng.randint(4, 12)):
+            closed = [u for u in uris if u not in texts]
+            r = ctx.rng.random()
+            if closed and (r < 0.35 or not texts):
+                u = ctx.rng.choice(closed)
+                texts[u] = rand_text(ctx.rng, 10)
+                ops.append(("open", u, texts[u], dict(texts)))
+            elif texts and r < 0.85:
+                u = ctx.rng.choice(sorted(texts))
+                chs = []
+                for _ in range(ctx.rng.randint(1, 2)):
+                    ch = rand_change(ctx.rng, texts[u])
+                    texts[u] = client_apply(texts[u], ch)
+                    chs.append(ch)
+                ops.append(("change", u, chs, dict(texts)))
+            elif texts:
+                u = ctx.rng.choice(sorted(texts))
+                del texts[u]
+                ops.append(("close", u, None, dict(texts)))
+        out.append((uris, ops))
+    return out
+
+
+def run_sessions(exe, sessions):
+    """[(session index, op index, uri asked, expected text | None, observed)] - after every op the text of EVERY uri of the session"""
+    rows = []
+    for si, (uris, ops) in enumerate(sessions):
+        s = lspclient.Server(exe)
+        try:
+            s.initialize(diagnostics=False)
+            ver = {}
+            for oi, (kind, u, payload, expect) in enumerate(ops):
+                if kind == "open":
+                    s.open(u, payload)
+                    ver[u] = 1
+                elif kind == "change":
+                    ver[u] = ver.get(u, 1) + 1
+                    s.change(u, [lsp_change(c) for c in payload], version=ver[u])
+                else:
+                    s.close(u)
+                bad = False
+                for q in uris:
+                    try:
+                        r = s.request("$/verif/text", {"uri": q}, timeout=10.0)
+                    except queue.Empty:
+                        r = "timeout"
+                    obs = r.get("result") if isinstance(r, dict) else "<no response: %r>" % (r,)
+                    rows.append((si, oi, q, expect.get(q), obs))
+                    bad = bad or obs != expect.get(q)
+                if bad:
+                    break
+        finally:
+            s.kill()
+    return rows
+
+
 def run(ctx):
     proved = common.proof_stage(ctx)
     exe, log = common.build_server()
@@ -195,9 +262,29 @@ def run(ctx):
         again = [run_histories(exe, [(before, [(chs, after)])], "re%d" % k) for k in range(3)]
         if all(a and a[0][5] != after for a in again):
             confirmed.append(r)
-    for hi, si, before, chs, after, obs in confirmed[:3]:
+    for hi, si, before, chs, after, obs in list(confirmed)[:3]:
         ctx.violation(dict(kind="oracle", property="C08", text_before=before, changes=chs, client_text=after, server_text=obs,
                            what="after didChange the server's text (via $/verif/text) differs from the client's text under the LSP position rules"))
+    # several documents at once: every open document keeps the client's text, a closed one is unknown, whatever the other URIs do
+    sessions = gen_sessions(ctx, 1200 if ctx.thorough() else 160)
+    srows = []
+    sparts = [sessions[i::4] for i in range(4)]
+    with ThreadPoolExecutor(4) as ex:
+        for k, r in enumerate(ex.map(lambda part: run_sessions(exe, part), sparts)):
+            srows += [(si * 4 + k, oi, q, e, o) for (si, oi, q, e, o) in r]
+    sfails = [r for r in srows if r[4] != r[3]]
+    sconfirmed = []
+    for r in sorted(sfails, key=lambda r: (len(sessions[r[0]][1]), r[1]))[:3]:
+        si, oi, q, e, o = r
+        sess = (sessions[si][0], sessions[si][1][:oi + 1])
+        again = [run_sessions(exe, [sess]) for _ in range(2)]
+        if all(any(x[4] != x[3] for x in a) for a in again):
+            sconfirmed.append(r)
+    for si, oi, q, e, o in sconfirmed[:2]:
+        ctx.violation(dict(kind="oracle", property="C08", session=dict(uris=sessions[si][0], ops=[list(op[:3]) for op in sessions[si][1][:oi + 1]]),
+                           uri=q, client_text=e, server_text=o,
+                           what="with several documents open, the server's text of this URI ($/verif/text; null = not open) differs from the client's"))
+        confirmed.append(("session", si, oi))
     # correspondence: the Coq model applied to the same (text before, changes) must give the observed text
     mism, kfail, nk = [], [], 0
     if judge:
@@ -234,13 +321,17 @@ def run(ctx):
                     elif col > sum(u16(x) for x in ls[l][0]):
                         kinds["overshoot-column"] += 1
     ctx.cov.update({
-        "evaluations": len(rows),
+        "evaluations": len(rows) + len(srows),
         "distinct_nontrivial": len(set((r[2], json.dumps(r[3])) for r in rows if len(r[2]) >= 3 and any(ord(c) > 127 or c in "\r\n" for c in r[2]))),
         "rule": "histories of 1-5 didChange notifications x 1-3 content changes on texts over {a, é, €, 😀, CR, LF, CRLF, SP, x} (<= 12 symbols): "
                 "valid, column-overshooting and line-overshooting positions (never inside a surrogate pair), ordered ranges, full-text "
                 "replacements; after every notification the server text ($/verif/text) is compared with an independent python client "
-                "model and with the Coq model. non-trivial = distinct (text, changes) with >= 3 chars incl. a non-ASCII char or line end",
+                "model and with the Coq model; sessions with 2-4 documents open at once under URIs that differ in scheme / query / fragment / "
+                "case / host / one path segment only, interleaved open / change / close, the text of every URI compared after every "
+                "operation. non-trivial = distinct (text, changes) with >= 3 chars incl. a non-ASCII char or line end",
         "histories": len(hists), "corpus_histories": ncorpus,
+        "multi_document_sessions": dict(sessions=len(sessions), texts_compared=len(srows), deviations=len(sfails), confirmed=len(sconfirmed),
+                                        uri_pool=URI_POOL),
         "input_histogram": kinds,
         "traces_validated_against_impl": len(rows) if judge else 0,
         "kernel_judge_cases": nk,
@@ -258,6 +349,25 @@ def run(ctx):
 
 def replay(ctx, path):
     r = json.load(open(path))
+    if "session" in r:
+        exe, _ = common.build_server()
+        # re-derive the expectations with the client model
+        texts, ops = {}, []
+        for kind, u, payload in r["session"]["ops"]:
+            if kind == "open":
+                texts[u] = payload
+            elif kind == "change":
+                payload = [dict(range=(tuple(map(tuple, c["range"])) if c["range"] else None), text=c["text"]) for c in payload]
+                for c in payload:
+                    texts[u] = client_apply(texts[u], c)
+            else:
+                texts.pop(u, None)
+            ops.append((kind, u, payload, dict(texts)))
+        rows = run_sessions(exe, [(r["session"]["uris"], ops)])
+        bad = [x for x in rows if x[4] != x[3]]
+        for x in bad[:3]:
+            print("after op %d: %s client %r server %r" % (x[1], x[2], x[3], x[4]))
+        return 1 if bad else 0
     if "text_before" not in r:
         print(json.dumps(r, indent=1))
         return 1
